@@ -87,6 +87,14 @@ type analyzer struct {
 	pkgs   []*packages.Package // goflow library packages (skipPrefixes removed)
 	shared map[*types.Named]bool
 	named  []*types.Named // all goflow named types (library packages)
+	// getters: methods whose body is `return recv.field`: callers get an alias of the field's backing store
+	getters       map[*types.Func]aliasInfo
+	gettersByName map[string][]aliasInfo
+}
+
+// aliasInfo: a slice / map value that shares its backing store with a field of a shared type
+type aliasInfo struct {
+	Type, Field, Root string
 }
 
 func rel(p string) string {
@@ -253,6 +261,7 @@ type funcCtx struct {
 	params   map[types.Object]bool
 	fresh    map[types.Object]bool // locals initialised by a fresh allocation
 	locals   map[types.Object]bool
+	alias    map[types.Object]aliasInfo // locals holding a slice / map taken from a field of a shared type
 	ctor     bool
 	inInit   bool
 	locked   bool // body starts with recv.<mutex>.Lock()
@@ -392,10 +401,112 @@ func fieldOwner(n *types.Named, f *types.Var) *types.Named {
 	return nil
 }
 
+func (c *funcCtx) rootKind(e ast.Expr) (string, bool) {
+	root := rootIdent(e)
+	if root == nil {
+		return "RtOther", true
+	}
+	ro := c.info.Uses[root]
+	if ro == nil {
+		ro = c.info.Defs[root]
+	}
+	switch {
+	case ro == nil:
+		return "RtOther", true
+	case isPkgLevel(ro):
+		return "RtGlobal", inGoflow(ro.Pkg())
+	case ro == c.recv:
+		return "RtRecv", true
+	case c.params[ro]:
+		return "RtParam", true
+	case c.fresh[ro]:
+		return "", false
+	}
+	return "RtOther", true
+}
+
+// sharedRef: does the slice / map valued expression e share its backing store with a field of a shared type?
+// (the field itself, a re-slicing of it, a local it was stored in, or the result of a plain getter)
+func (c *funcCtx) sharedRef(e ast.Expr) (aliasInfo, bool) {
+	e = ast.Unparen(e)
+	for {
+		se, ok := e.(*ast.SliceExpr)
+		if !ok {
+			break
+		}
+		e = ast.Unparen(se.X)
+	}
+	t := c.info.TypeOf(e)
+	if t == nil {
+		return aliasInfo{}, false
+	}
+	switch t.Underlying().(type) {
+	case *types.Slice, *types.Map:
+	default:
+		return aliasInfo{}, false
+	}
+	if ce, ok := e.(*ast.CallExpr); ok {
+		sel, ok := ast.Unparen(ce.Fun).(*ast.SelectorExpr)
+		if !ok || len(ce.Args) != 0 {
+			return aliasInfo{}, false
+		}
+		ms := c.info.Selections[sel]
+		if ms == nil || ms.Kind() != types.MethodVal {
+			return aliasInfo{}, false
+		}
+		fo, _ := ms.Obj().(*types.Func)
+		if fo == nil {
+			return aliasInfo{}, false
+		}
+		kind, ok := c.rootKind(sel.X)
+		if !ok {
+			return aliasInfo{}, false
+		}
+		if g, ok := c.a.getters[fo.Origin()]; ok {
+			return aliasInfo{g.Type, g.Field, kind}, true
+		}
+		if sig, ok := fo.Type().(*types.Signature); ok && sig.Recv() != nil {
+			if _, isIface := sig.Recv().Type().Underlying().(*types.Interface); isIface {
+				if gs := c.a.gettersByName[fo.Name()]; len(gs) > 0 {
+					return aliasInfo{gs[0].Type, gs[0].Field, kind}, true
+				}
+			}
+		}
+		return aliasInfo{}, false
+	}
+	if id, ok := e.(*ast.Ident); ok {
+		if o := c.info.Uses[id]; o != nil {
+			if ai, ok := c.alias[o]; ok {
+				return ai, true
+			}
+		}
+	}
+	kind, ok := c.rootKind(e)
+	if !ok {
+		return aliasInfo{}, false
+	}
+	n, f, _ := c.fieldOnPath(e)
+	if n == nil || !c.a.shared[n] {
+		return aliasInfo{}, false
+	}
+	return aliasInfo{typeName(n), f, kind}, true
+}
+
 func (c *funcCtx) record(lhs ast.Expr, kind string, stack []ast.Node) {
 	lhs = ast.Unparen(lhs)
 	if id, ok := lhs.(*ast.Ident); ok && id.Name == "_" {
 		return
+	}
+	// element write / delete / in-place reordering through a local that aliases a shared field
+	if ix, ok := lhs.(*ast.IndexExpr); ok {
+		if id, ok := ast.Unparen(ix.X).(*ast.Ident); ok {
+			if o := c.info.Uses[id]; o != nil {
+				if ai, ok := c.alias[o]; ok {
+					c.emit(write{Type: ai.Type, Field: ai.Field, Kind: kind, Root: ai.Root, shared: true}, lhs, stack)
+					return
+				}
+			}
+		}
 	}
 	root := rootIdent(lhs)
 	if root == nil {
@@ -561,6 +672,28 @@ func (c *funcCtx) scan(body ast.Node) {
 		}
 		return true
 	})
+	// locals that hold a slice / map taken from a field of a shared type (in source order, so aliases of aliases work)
+	ast.Inspect(body, func(n ast.Node) bool {
+		if x, ok := n.(*ast.AssignStmt); ok && len(x.Lhs) == len(x.Rhs) && (x.Tok == token.DEFINE || x.Tok == token.ASSIGN) {
+			for i, l := range x.Lhs {
+				id, ok := l.(*ast.Ident)
+				if !ok || id.Name == "_" {
+					continue
+				}
+				o := c.info.Defs[id]
+				if o == nil {
+					o = c.info.Uses[id]
+				}
+				if o == nil || isPkgLevel(o) || o == c.recv || c.params[o] {
+					continue
+				}
+				if ai, ok := c.sharedRef(x.Rhs[i]); ok {
+					c.alias[o] = ai
+				}
+			}
+		}
+		return true
+	})
 	var stack []ast.Node
 	ast.Inspect(body, func(n ast.Node) bool {
 		if n == nil {
@@ -634,6 +767,13 @@ func (c *funcCtx) scan(body ast.Node) {
 			if id, ok := ast.Unparen(x.Fun).(*ast.Ident); ok {
 				if b, ok := c.info.Uses[id].(*types.Builtin); ok {
 					switch b.Name() {
+					case "append":
+						// append(base, ..) may write into base's backing array when it has spare capacity
+						if len(x.Args) > 1 {
+							if ai, ok := c.sharedRef(x.Args[0]); ok {
+								c.emit(write{Type: ai.Type, Field: ai.Field, Kind: "GwAppend", Root: ai.Root, shared: true}, x.Args[0], stack)
+							}
+						}
 					case "delete", "clear":
 						if len(x.Args) > 0 {
 							c.record(&ast.IndexExpr{X: x.Args[0], Index: &ast.Ident{Name: "_"}, Lbrack: x.Args[0].Pos()}, "GwDelete", stack)
@@ -838,6 +978,58 @@ func main() {
 	}
 	a.computeShared(roots)
 
+	// plain getters of slice / map fields of shared types
+	a.getters = map[*types.Func]aliasInfo{}
+	a.gettersByName = map[string][]aliasInfo{}
+	for _, p := range a.pkgs {
+		for _, f := range p.Syntax {
+			for _, d := range f.Decls {
+				fd, ok := d.(*ast.FuncDecl)
+				if !ok || fd.Body == nil || fd.Recv == nil || len(fd.Body.List) != 1 {
+					continue
+				}
+				rs, ok := fd.Body.List[0].(*ast.ReturnStmt)
+				if !ok || len(rs.Results) != 1 {
+					continue
+				}
+				sel, ok := ast.Unparen(rs.Results[0]).(*ast.SelectorExpr)
+				if !ok {
+					continue
+				}
+				rid := recvIdent(fd)
+				xid, ok := ast.Unparen(sel.X).(*ast.Ident)
+				if rid == nil || !ok || xid.Name != rid.Name {
+					continue
+				}
+				fs := p.TypesInfo.Selections[sel]
+				if fs == nil || fs.Kind() != types.FieldVal {
+					continue
+				}
+				switch fs.Type().Underlying().(type) {
+				case *types.Slice, *types.Map:
+				default:
+					continue
+				}
+				owner := namedOf(fs.Recv())
+				if v, ok := fs.Obj().(*types.Var); ok && owner != nil {
+					if o2 := fieldOwner(owner, v); o2 != nil {
+						owner = o2
+					}
+				}
+				if owner == nil || !a.shared[owner] {
+					continue
+				}
+				fo, _ := p.TypesInfo.Defs[fd.Name].(*types.Func)
+				if fo == nil {
+					continue
+				}
+				ai := aliasInfo{Type: typeName(owner), Field: sel.Sel.Name}
+				a.getters[fo] = ai
+				a.gettersByName[fo.Name()] = append(a.gettersByName[fo.Name()], ai)
+			}
+		}
+	}
+
 	// scan functions
 	var writes []write
 	var guardedCalls []guardedCall
@@ -864,7 +1056,7 @@ func main() {
 				}
 				name := fd.Name.Name
 				c := &funcCtx{a: a, p: p, info: p.TypesInfo, relPkg: rp, params: map[types.Object]bool{}, fresh: map[types.Object]bool{},
-					locals: map[types.Object]bool{}, writes: &writes, onceLits: map[*ast.FuncLit]bool{}, guarded: &guardedCalls}
+					locals: map[types.Object]bool{}, alias: map[types.Object]aliasInfo{}, writes: &writes, onceLits: map[*ast.FuncLit]bool{}, guarded: &guardedCalls}
 				c.fn, _ = p.TypesInfo.Defs[fd.Name].(*types.Func)
 				if rid := recvIdent(fd); rid != nil {
 					c.recv = p.TypesInfo.Defs[rid]
